@@ -120,3 +120,40 @@ Theorem C02_instances_agree_tree_deriv : forall (LQ LR : Type) (opsQ : leafops Q
   (forall l s p, rl (@l_deriv Q LQ opsQ l s p) = @l_deriv R LR opsR (m l) (rl s) (rl p)) ->
   forall d S P, rm (gderiv opsQ d S P) = gderiv opsR (mdev LQ LR m d) (rm S) (rm P).
 Proof. exact instances_agree_tree_deriv. Qed.
+
+(* ---- ONE DeviceSet level as regenerated from device_kit/deviceset.py on every run (Gen/DeviceSet.v, translator/deviceset_tx.py:
+        shapes / shape / partition incl. the np.roll(cumsum) idiom / costv / cost / deriv / hess / bounds / project over ABSTRACT
+        children) is one level of the tree recursion the theorems above are about.  Any carrier, any leaf behaviours, any children
+        (kid_of ops n k: the child sub-tree k as the set above it sees it); SubBalancedDeviceSet inherits these methods. ---- *)
+From DK.Model Require Import SetOps.
+From DK.Gen Require Import DeviceSet.
+From DK.Proofs Require Import GenDeviceSet.
+Theorem C02_source_partition_is_exclusive_prefix_sums : forall rs : list nat,
+  combine (np_set0 (np_roll1 (np_cumsum rs))) rs = pairs_from 0 rs.
+Proof. exact roll_cumsum_pairs. Qed.
+Theorem C02_source_set_shape_and_partition : forall {A} `{Num A} {L} (ops : leafops A L) i ks sb,
+  let d := DSet i ks sb in let n := dlen ops d in
+  DeviceSet_shape (map (kid_of ops n) ks) n = (rows ops d, dlen ops d) /\ DeviceSet_partition (map (kid_of ops n) ks) n = partition ops d.
+Proof. intros A H L ops i ks sb. split; [apply gen_node_shape | apply gen_node_partition]. Qed.
+Theorem C02_source_set_cost : forall {A} `{Num A} {L} (ops : leafops A L) i ks sb s p,
+  let d := DSet i ks sb in let n := dlen ops d in
+  DeviceSet_cost (map (kid_of ops n) ks) n s p = gcost ops d (shaped ops d s) (prices ops d p).
+Proof. intros A H L ops i ks sb s p. apply gen_node_cost. Qed.
+Theorem C02_source_set_deriv : forall {A} `{Num A} {L} (ops : leafops A L) i ks sb s p,
+  let d := DSet i ks sb in let n := dlen ops d in
+  DeviceSet_deriv (map (kid_of ops n) ks) n s p = gderiv ops d (shaped ops d s) (prices ops d p).
+Proof. intros A H L ops i ks sb s p. apply gen_node_deriv. Qed.
+Theorem C02_source_set_hess : forall {A} `{Num A} {L} (ops : leafops A L) i ks sb s p,
+  let d := DSet i ks sb in let n := dlen ops d in
+  DeviceSet_hess (map (kid_of ops n) ks) n s p = ghess ops d (shaped ops d s).
+Proof. intros A H L ops i ks sb s p. apply gen_node_hess. Qed.
+Theorem C02_source_set_bounds_and_project : forall {A} `{Num A} {L} (ops : leafops A L) i ks sb s,
+  let d := DSet i ks sb in let n := dlen ops d in
+  DeviceSet_bounds (map (kid_of ops n) ks) n = gbounds ops d /\ DeviceSet_project (map (kid_of ops n) ks) n s = gproject ops d (shaped ops d s).
+Proof. intros A H L ops i ks sb s. split; [apply gen_node_bounds | apply gen_node_project]. Qed.
+Theorem C02_source_subbalanced_set : forall {A} `{Num A} {L} (ops : leafops A L) i ks sb lb e sg rm s p,
+  let d := SubBal i ks sb lb e sg rm in let n := dlen ops (DSet i ks sb) in
+  DeviceSet_cost (map (kid_of ops n) ks) n s p = gcost ops d (shaped ops d s) (prices ops d p) /\
+  DeviceSet_deriv (map (kid_of ops n) ks) n s p = gderiv ops d (shaped ops d s) (prices ops d p) /\
+  DeviceSet_bounds (map (kid_of ops n) ks) n = gbounds ops d.
+Proof. intros A H L ops i ks sb lb e sg rm s p. apply gen_subbalanced_node. Qed.
